@@ -31,7 +31,7 @@ def main():
                 if os.path.exists(f"{SRC}/{pid}/{x}/patch.diff"):
                     items.append(f"{pid}/{x}")
     head = sh("git -C /repo rev-parse --short HEAD").stdout.strip()
-    wt = "/tmp/wt/matrix"
+    wt = "/tmp/wt/matrix" + os.environ.get("MATRIX_SLOT", "")
     sh(f"git -C /repo worktree remove --force {wt}")
     sh(f"git -C /repo worktree add -q --detach {wt} HEAD")
     env = dict(os.environ, PYTHONHASHSEED="0", PYTHONPATH=f"{wt}/src")
@@ -61,20 +61,19 @@ def main():
             ran += [f"demo.py on unmodified HEAD {head}: exit {r0}", f"demo.py with patch: exit {r1}", f"pytest with patch: {suite}"]
             out["confirmed"] = (r0 == 0 and r1 != 0 and suite.startswith("2 failed, 2477 passed"))
             out["detected_by"], out["missed_by"] = [], []
-            if sh("git -C /repo diff --quiet").returncode != 0:
-                print("/repo has uncommitted changes; abort")
-                sys.exit(2)
-            sh(f"git -C /repo apply {patch}")
+            # the checks import dep_logic from DEP_LOGIC_SRC: the patched scratch worktree (same effect as
+            # applying the patch to /repo and reverting it, without blocking /repo)
+            sh(f"git -C {wt} apply {patch}")
             try:
                 for chk in [pid] + EXTRA.get(pid, []):
-                    r = sh(f"./check {chk}", cwd="/verif")
+                    r = sh(f"./check {chk}", cwd="/verif", env=dict(os.environ, DEP_LOGIC_SRC=f"{wt}/src"))
                     viol = [l for l in r.stdout.splitlines() if l.startswith("  " + chk + ":")][:2]
                     ran.append(f"./check {chk} with patch: exit {r.returncode}" + (f" first: {viol[0].strip()[:200]}" if viol else ""))
                     (out["detected_by"] if r.returncode == 1 else out["missed_by"]).append(chk)
                     if r.returncode == 2:
                         out.setdefault("machinery_failure", []).append(chk)
             finally:
-                sh("git -C /repo checkout -- .")
+                sh(f"git -C {wt} checkout -- .")
             out["status"] = "detected" if pid in out["detected_by"] else ("detected-by-other" if out["detected_by"] else "MISSED")
         out["ran"] = ran
         dst = f"{DST}/{pid}-{x}"
